@@ -25,6 +25,7 @@ import (
 	"math/big"
 	"net/http"
 	"net/http/httptest"
+	"net/netip"
 	"net/url"
 	"os"
 	"path/filepath"
@@ -56,6 +57,10 @@ type certs struct {
 	// two keys (plus c11r, c11 renewed), and one client certificate l<n><k> per root
 	cas      map[string]*x509.Certificate
 	caChains []string // names (in byName) of the chains of that family
+	// issuing intermediates below the root c11, by the extended key usage of their
+	// own certificate, and what each chain name of that sub-family is made of
+	inters   map[string]*x509.Certificate
+	viaInter map[string][2]string // chain name -> (intermediate EKU, leaf EKU)
 }
 
 var C certs
@@ -214,11 +219,50 @@ func initCAIdentity(nb, na time.Time) {
 		}
 	}
 	C.cas["c11r"] = mkNamed(names[1], &keys[1].PublicKey, nil, keys[1], true, nil, nb.Add(-48*time.Hour), na.Add(24*time.Hour))
+	// A configured CA seldom issues end-entity certificates itself: it has issuing
+	// CAs below it, and such a CA's own certificate may restrict what the
+	// certificates it issues are good for (RFC 5280 4.2.1.12; the restriction binds
+	// the whole path, as every path validator in use applies it). Below the root c11:
+	// one issuing CA per extended key usage of its OWN certificate x one client per
+	// extended key usage of the leaf, presented as [leaf, issuing CA] (the root is
+	// what the entry holds); and the clientAuth leaf of each issuing CA presented
+	// alone (no path to any configured CA can be built from it).
+	C.inters = map[string]*x509.Certificate{}
+	C.viaInter = map[string][2]string{}
+	for _, ie := range interEKUs {
+		ik, _ := ecdsa.GenerateKey(elliptic.P256(), rand.Reader)
+		inter := mkNamed(pkix.Name{CommonName: "Issuing CA " + ie.name, Organization: []string{"Example"}}, &ik.PublicKey, C.cas["c11"], keys[1], true, ie.eku, nb, na)
+		C.inters[ie.name] = inter
+		for _, le := range leafEKUs {
+			lk, _ := ecdsa.GenerateKey(elliptic.P256(), rand.Reader)
+			leaf := mkNamed(pkix.Name{CommonName: "build job via " + ie.name + " " + le.name}, &lk.PublicKey, inter, ik, false, le.eku, nb, na)
+			name := "j." + ie.name + "." + le.name + "+i." + ie.name
+			C.byName[name] = []*x509.Certificate{leaf, inter}
+			C.viaInter[name] = [2]string{ie.name, le.name}
+			C.caChains = append(C.caChains, name)
+			if le.name == "client" {
+				C.byName["j."+ie.name+"."+le.name] = []*x509.Certificate{leaf}
+				C.viaInter["j."+ie.name+"."+le.name] = [2]string{ie.name, le.name}
+				C.caChains = append(C.caChains, "j."+ie.name+"."+le.name)
+			}
+		}
+	}
 	if !bytes.Equal(C.cas["c11"].RawSubject, C.cas["c12"].RawSubject) || !bytes.Equal(C.cas["c11"].RawSubjectPublicKeyInfo, C.cas["c21"].RawSubjectPublicKeyInfo) ||
 		bytes.Equal(C.cas["c11"].Raw, C.cas["c11r"].Raw) || !bytes.Equal(C.cas["c11"].RawSubject, C.cas["c11r"].RawSubject) {
 		panic("CA identity fixtures are not what they are meant to be")
 	}
 }
+
+type ekuChoice struct {
+	name string
+	eku  []x509.ExtKeyUsage
+}
+
+// extended key usage of an issuing CA's own certificate, and of a leaf
+var interEKUs = []ekuChoice{{"none", nil}, {"client", []x509.ExtKeyUsage{x509.ExtKeyUsageClientAuth}},
+	{"server", []x509.ExtKeyUsage{x509.ExtKeyUsageServerAuth}}, {"any", []x509.ExtKeyUsage{x509.ExtKeyUsageAny}}}
+var leafEKUs = []ekuChoice{{"none", nil}, {"client", []x509.ExtKeyUsage{x509.ExtKeyUsageClientAuth}},
+	{"both", []x509.ExtKeyUsage{x509.ExtKeyUsageClientAuth, x509.ExtKeyUsageServerAuth}}, {"server", []x509.ExtKeyUsage{x509.ExtKeyUsageServerAuth}}}
 
 // ---------- configuration family ----------
 
@@ -626,30 +670,57 @@ func recognised(cs cfgSpec, chain []*x509.Certificate) []client {
 }
 
 // issuedUnder: the reference for "a client entry named by issuing CA recognises
-// this chain": the first certificate's issuer name is the subject of a CA of THIS
-// entry's bundle and its signature verifies with that CA's key (RFC 5280 6.1.3
-// (a)(1),(a)(4)), it is within its validity period and it is a client-
-// authentication certificate. Other entries' bundles play no part.
+// this chain": there is a certification path from the first certificate to a CA
+// of THIS entry's bundle - each certificate's issuer name is the subject of the
+// next and its signature verifies with the next one's key (RFC 5280 6.1.3
+// (a)(1),(a)(4)), the next being a CA of the bundle or an issuing CA certificate
+// (basicConstraints cA, keyCertSign) among the certificates the caller presented
+// after the first; every certificate of the path is within its validity period;
+// and every certificate of the path that carries an extended key usage extension
+// names clientAuth or anyExtendedKeyUsage in it (a path is good for client
+// authentication only if none of its certificates excludes that usage). Other
+// entries' bundles play no part.
 func issuedUnder(bundle []*x509.Certificate, chain []*x509.Certificate) bool {
 	if len(chain) == 0 {
 		return false
 	}
-	leaf := chain[0]
-	now := time.Now()
-	if now.Before(leaf.NotBefore) || now.After(leaf.NotAfter) {
-		return false
+	return pathUnder(bundle, chain[0], chain[1:], 0)
+}
+
+func goodForClientAuth(c *x509.Certificate) bool {
+	if len(c.ExtKeyUsage) == 0 && len(c.UnknownExtKeyUsage) == 0 {
+		return true
 	}
-	clientAuth := len(leaf.ExtKeyUsage) == 0
-	for _, u := range leaf.ExtKeyUsage {
+	for _, u := range c.ExtKeyUsage {
 		if u == x509.ExtKeyUsageClientAuth || u == x509.ExtKeyUsageAny {
-			clientAuth = true
+			return true
 		}
 	}
-	if !clientAuth {
+	return false
+}
+
+func issuedBy(c, ca *x509.Certificate) bool {
+	return bytes.Equal(c.RawIssuer, ca.RawSubject) && ca.CheckSignature(c.SignatureAlgorithm, c.RawTBSCertificate, c.Signature) == nil
+}
+
+func pathUnder(bundle []*x509.Certificate, c *x509.Certificate, presented []*x509.Certificate, depth int) bool {
+	now := time.Now()
+	if now.Before(c.NotBefore) || now.After(c.NotAfter) || !goodForClientAuth(c) {
 		return false
 	}
 	for _, ca := range bundle {
-		if bytes.Equal(leaf.RawIssuer, ca.RawSubject) && ca.CheckSignature(leaf.SignatureAlgorithm, leaf.RawTBSCertificate, leaf.Signature) == nil {
+		if issuedBy(c, ca) && goodForClientAuth(ca) {
+			return true
+		}
+	}
+	if depth >= 3 {
+		return false
+	}
+	for _, ic := range presented {
+		if ic.Equal(c) || !ic.IsCA || !ic.BasicConstraintsValid || ic.KeyUsage&x509.KeyUsageCertSign == 0 || !issuedBy(c, ic) {
+			continue
+		}
+		if pathUnder(bundle, ic, presented, depth+1) {
 			return true
 		}
 	}
@@ -663,6 +734,20 @@ func relationTo(bundle []*x509.Certificate, chain []*x509.Certificate) string {
 		return "no-certificate"
 	}
 	leaf := chain[0]
+	// a first certificate issued by an issuing CA that follows it in the chain is
+	// classed by how THAT CA's issuer relates to the bundle, and by the issuing
+	// CA's own extended key usage
+	for _, ic := range chain[1:] {
+		inBundle := false
+		for _, ca := range bundle {
+			if ca.Equal(ic) {
+				inBundle = true
+			}
+		}
+		if !inBundle && ic.IsCA && !ic.Equal(leaf) && !bytes.Equal(ic.RawIssuer, ic.RawSubject) && issuedBy(leaf, ic) {
+			return relationTo(bundle, []*x509.Certificate{ic}) + ":via-issuing-ca-with-eku-" + ekuName(ic) + ":leaf-eku-" + ekuName(leaf)
+		}
+	}
 	sameName, sameKey := false, false
 	for _, ca := range bundle {
 		n := bytes.Equal(leaf.RawIssuer, ca.RawSubject)
@@ -685,6 +770,26 @@ func relationTo(bundle []*x509.Certificate, chain []*x509.Certificate) string {
 		return "same-key-other-name"
 	}
 	return "unrelated-ca"
+}
+
+func ekuName(c *x509.Certificate) string {
+	if len(c.ExtKeyUsage) == 0 {
+		return "none"
+	}
+	var out []string
+	for _, u := range c.ExtKeyUsage {
+		switch u {
+		case x509.ExtKeyUsageClientAuth:
+			out = append(out, "clientAuth")
+		case x509.ExtKeyUsageServerAuth:
+			out = append(out, "serverAuth")
+		case x509.ExtKeyUsageAny:
+			out = append(out, "any")
+		default:
+			out = append(out, fmt.Sprint(int(u)))
+		}
+	}
+	return strings.Join(out, "+")
 }
 
 // chainNames: every chain of the alphabet, in a fixed order.
@@ -1108,7 +1213,7 @@ func main() {
 	}
 	if si == 0 {
 		if phase("malformed") {
-			malformed()
+			malformed(dir)
 		}
 		if phase("policy") {
 			policyPhase(auditFile)
@@ -1120,6 +1225,8 @@ func main() {
 			"keys":                           "3 names; real/alias/dangling alias/alias of alias/hidden/no token",
 			"ca_identity_chains":             len(C.caChains),
 			"chains_asked_of_every_ca_entry": len(allChains),
+			"issuing_ca_chains":              len(C.viaInter),
+			"malformed":                      "17 malformed + 7 well-formed trusted-proxy forms (malformed: alone / last / first), 2 client key lengths, 4 malformed CA certificate texts, 2 token references; x {structs, YAML file}; no token interaction of any kind before the error",
 		})
 	}
 	os.RemoveAll(dir) // finish exits the process: deferred calls do not run
@@ -1127,12 +1234,15 @@ func main() {
 }
 
 func finish() {
-	run.Rule("every configuration of the family (clients F by fingerprint / A,B by CA x role sets; keys ka real(roles,hide), kb {absent, alias->ka, alias->missing, alias->alias, hidden real, no-token, hidden alias}, kc {absent, alias->kb, real}; trusted-proxy lists) x every request (endpoint x key name x peer address x TLS chain x X-Forwarded-For x Ssl-Client-Cert) is sent to the real handler; states = configurations, transitions = requests. distinct_nontrivial = (config,request) pairs that present some identity evidence. CA identity family: an issuing CA is identified by (subject name, public key), so the CA alphabet is the product of two names x two keys (unrelated CAs, namesakes = same subject DN with another key, re-issued = same key under another subject) plus one renewed certificate (same name and key, another serial and validity); every ordered pair of client entries whose bundles are drawn from {each single CA, the renewed one, [c11,c22], [c12,c21], [c22,c11]} (8 x 8), with roles (r1, r2) and (r1, r1+r2), keys of each role set (r1, r2, r1+r2), is written out as a YAML file (CA certificates as block scalars, the layout of doc/relic.yml) and loaded with config.ReadFile; callers = a client certificate issued by each of the four CAs, alone and followed by its CA certificate, over TLS from a non-proxy peer and forwarded (Ssl-Client-Cert + X-Forwarded-For) by the configured proxy, and nobody; every endpoint x key name (listing included). Decided twice: (1) per entry - on every loaded configuration (of this family AND of the main family) every CA-named client entry's Match is asked about every chain of the whole alphabet and must recognise exactly the chains whose first certificate is a valid client certificate issued (issuer name = CA subject and signature verifies with the CA key, RFC 5280 6.1.3) by a CA of that entry's own bundle; (2) at the handler - every request is asked several times on each of several fresh loads and every single answer must be one the reference allows")
+	run.Rule("every configuration of the family (clients F by fingerprint / A,B by CA x role sets; keys ka real(roles,hide), kb {absent, alias->ka, alias->missing, alias->alias, hidden real, no-token, hidden alias}, kc {absent, alias->kb, real}; trusted-proxy lists) x every request (endpoint x key name x peer address x TLS chain x X-Forwarded-For x Ssl-Client-Cert) is sent to the real handler; states = configurations, transitions = requests. distinct_nontrivial = (config,request) pairs that present some identity evidence. CA identity family: an issuing CA is identified by (subject name, public key), so the CA alphabet is the product of two names x two keys (unrelated CAs, namesakes = same subject DN with another key, re-issued = same key under another subject) plus one renewed certificate (same name and key, another serial and validity); every ordered pair of client entries whose bundles are drawn from {each single CA, the renewed one, [c11,c22], [c12,c21], [c22,c11]} (8 x 8), with roles (r1, r2) and (r1, r1+r2), keys of each role set (r1, r2, r1+r2), is written out as a YAML file (CA certificates as block scalars, the layout of doc/relic.yml) and loaded with config.ReadFile; callers = a client certificate issued by each of the four CAs, alone and followed by its CA certificate, over TLS from a non-proxy peer and forwarded (Ssl-Client-Cert + X-Forwarded-For) by the configured proxy, and nobody; every endpoint x key name (listing included). Decided twice: (1) per entry - on every loaded configuration (of this family AND of the main family) every CA-named client entry's Match is asked about every chain of the whole alphabet and must recognise exactly the chains whose first certificate is a valid client certificate issued (issuer name = CA subject and signature verifies with the CA key, RFC 5280 6.1.3) by a CA of that entry's own bundle; (2) at the handler - every request is asked several times on each of several fresh loads and every single answer must be one the reference allows. Issuing CAs below a configured root: under the root c11 one issuing CA per extended key usage of its OWN certificate {none, clientAuth, serverAuth only, anyExtendedKeyUsage} x one client certificate per leaf extended key usage {none, clientAuth, clientAuth+serverAuth, serverAuth only}, presented as [leaf, issuing CA] (16 chains), and each issuing CA's clientAuth leaf presented alone (4 chains); they are part of the chain alphabet every CA-named entry of every loaded configuration is asked about, and of the callers of the CA identity family at the handler (quick: once per load). Malformed configuration entries: a well-formed base (two served scripted tokens, clients by fingerprint and by CA) with one entry malformed - server.trustedproxies entries over 17 malformed forms (prefix length 33 / 129 / negative / empty / not a number / two prefixes, host name with and without prefix, octet out of range with and without prefix, three and five octets, empty text, address with port, bad v6 group, nine v6 groups, two v6 gaps) each alone, after and before a well-formed entry; client keys of 63 and 65 characters; CA certificate text that is garbage DER, no PEM, a good certificate followed by garbage, truncated; keys naming no token or an undefined one - each through the structs (Normalize, server.New) and through a YAML file (config.ReadFile, server.New, as relic serve does): start-up must fail and the scripted token type must have recorded NO interaction at all (open = its token.Openers entry invoked, close, ping, getkey, sign); 9 well-formed controls of the same alphabets (prefix 0, 32, 128 included) must be accepted with both served tokens opened")
 	run.Assume("a trusted peer that sends no X-Forwarded-For chain may be identified by either its TLS chain or its header certificate (the statement only constrains untrusted peers)")
 	run.Assume("when a certificate is issued under the bundles of several CA clients (the same CA, or a renewed certificate of it, named by two entries) the outcome may follow any of THOSE entries (Go map order); an entry whose bundle does not hold the issuer (same subject DN but another key, same key but another subject) is not among them and none of its roles may ever show")
 	run.Assume("which entry answers a request depends on Go's randomised map iteration when more than one entry recognises the caller, and repetition cannot be argued to reach every order (the runtime picks the starting slot; with two entries one order may have probability 1/8 per walk): therefore the verdict on 'which entries recognise this caller' is NOT taken from repeated requests but from asking each entry of the loaded configuration on its own (deterministic, order plays no part); the repeated handler requests (every answer must be an allowed one, none is required to differ) add the end-to-end view and can only ever report an answer that is wrong in itself")
 	run.Assume("the reference 'issued under this entry's bundle' is compared at start-up with crypto/x509 path validation against a pool holding that bundle only, over every bundle x chain of the alphabet; a disagreement is a harness error, not a verdict")
 	run.Assume("a name whose own entry or whose alias target is hidden counts as hidden for listings")
+	run.Assume("recognition by a CA client entry is defined by standard path validation for the client-authentication usage against that entry's CA certificates alone (relic documents a CA entry as 'any certificate issued by this CA'; crypto/x509 Verify with KeyUsages=[ClientAuth], roots = the entry's bundle, intermediates = what the caller presented): a usage restriction in an issuing CA's own certificate binds every certificate issued below it, so a leaf below a serverAuth-only issuing CA is no client of the entry whatever the leaf itself says; the harness reference (path building by name and signature over the presented certificates, validity, cA/keyCertSign, no certificate of the path excluding clientAuth) is compared with crypto/x509 over every bundle x chain at start-up")
+	run.Assume("which texts are well-formed trusted-proxy entries (an IP address or a CIDR network) is a table in the harness, compared with net/netip at start-up (relic parses with net.ParseCIDR / net.ParseIP)")
+	run.Assume("a key naming no token or an undefined token is refused while the served tokens are being opened, in Go map order, so other tokens may already have been opened (and are closed again) when the error is returned: observed on the unchanged tree, order-dependent, recorded as an outcome and judged only with C04_TOKENREF_ORDER=1 (reported to the lead)")
 	run.Finish()
 }
 
@@ -1221,7 +1331,17 @@ func caIdentityPhase(dir, auditFile string, si, sn int) {
 			h := srv.Handler()
 			for _, r := range reqs {
 				alts, ips := expect(cs, r)
-				for rep := 0; rep < repeats; rep++ {
+				nrep := repeats
+				presented := r.TLS
+				if presented == "none" {
+					presented = r.Hdr
+				}
+				if _, via := C.viaInter[presented]; via && !run.Thorough() {
+					// quick: a caller below an issuing CA is asked once per load (the
+					// per-entry decision above is what decides recognition)
+					nrep = 1
+				}
+				for rep := 0; rep < nrep; rep++ {
 					obs := execute(h, r, auditFile)
 					run.Eval(1)
 					run.AddTransitions(1)
@@ -1281,57 +1401,229 @@ func chainPEM(name string) string {
 	return s
 }
 
-// malformed: configurations the statement calls malformed must be rejected at
-// Normalize/server.New, before any token is opened.
-func malformed() {
-	base := func() cfgSpec {
-		return cfgSpec{F: r1, A: r1, Keys: []keySpec{{Name: "ka", Kind: "real", Roles: r1}}}
-	}
-	type mcase struct {
-		name string
-		mut  func(c *config.Config)
-	}
-	cases := []mcase{
-		{"fingerprint-63-chars", func(c *config.Config) {
-			c.Clients[C.fpKeyFP[:63]] = &config.ClientConfig{Roles: r1}
-		}},
-		{"bad-cidr", func(c *config.Config) { c.Server.TrustedProxies = []string{"10.0.0.0/33"} }},
-		{"bad-proxy-ip", func(c *config.Config) { c.Server.TrustedProxies = []string{"not-an-ip"} }},
-		{"ca-pem-garbage", func(c *config.Config) {
-			c.Clients["caX"] = &config.ClientConfig{Roles: r1, Certificate: "-----BEGIN CERTIFICATE-----\nZm9vYmFy\n-----END CERTIFICATE-----\n"}
-		}},
-		{"key-with-roles-without-token", func(c *config.Config) { c.Keys["kz"] = &config.KeyConfig{Roles: r1} }},
-		{"key-with-undefined-token", func(c *config.Config) { c.Keys["kz"] = &config.KeyConfig{Roles: r1, Token: "nope"} }},
-	}
-	for _, mc := range cases {
-		faketoken.Reset()
-		cfg := base().build("")
-		mc.mut(cfg)
-		run.Eval(1)
-		run.Distinct("malformed:" + mc.name)
-		var err error
-		func() {
-			defer func() {
-				if p := recover(); p != nil {
-					run.Violation("malformed-config-panics:"+mc.name, fmt.Sprint(p), mc.name)
-					err = fmt.Errorf("panic: %v", p)
-				}
-			}()
-			err = cfg.Normalize("")
-			if err == nil {
-				var srv *server.Server
-				srv, err = server.New(cfg)
-				if err == nil {
-					srv.Close()
-				}
-			}
-		}()
-		if err == nil {
-			run.Violation("malformed-config-accepted:"+mc.name, "configuration accepted without error", mc.name)
-		} else {
-			run.Outcome("malformed:rejected")
+// ---------- malformed configuration entries ----------
+
+// proxyEntry: one entry of server.trustedproxies. The documentation says an entry
+// is an IP address or an IP network in CIDR notation; ok says which texts are
+// that. The table is compared with net/netip (not the parser relic uses) before
+// anything is judged.
+type proxyEntry struct {
+	text  string
+	ok    bool
+	class string
+}
+
+var proxyEntries = []proxyEntry{
+	{"10.0.0.0/8", true, "v4-network"}, {"10.1.2.3", true, "v4-address"}, {"10.1.2.3/32", true, "v4-prefix-32"}, {"0.0.0.0/0", true, "v4-prefix-0"},
+	{"fe80::/10", true, "v6-network"}, {"::1", true, "v6-address"}, {"fe80::1/128", true, "v6-prefix-128"},
+	{"10.0.0.0/33", false, "v4-prefix-too-long"}, {"fe80::/129", false, "v6-prefix-too-long"}, {"10.0.0.0/-1", false, "prefix-negative"},
+	{"10.0.0.0/", false, "prefix-empty"}, {"10.0.0.0/x", false, "prefix-not-a-number"}, {"10.0.0.0/8/8", false, "two-prefixes"},
+	{"proxy.example.com", false, "host-name"}, {"proxy.example.com/24", false, "host-name-with-prefix"},
+	{"10.0.0.300", false, "v4-octet-out-of-range"}, {"10.0.0.300/8", false, "v4-octet-out-of-range-with-prefix"},
+	{"10.0.0", false, "v4-three-octets"}, {"10.0.0.1.2", false, "v4-five-octets"}, {"", false, "empty"}, {"10.0.0.1:80", false, "address-with-port"},
+	{"fe80::zz", false, "v6-bad-group"}, {"1:2:3:4:5:6:7:8:9", false, "v6-nine-groups"}, {"fe80::1::2", false, "v6-two-gaps"},
+}
+
+func checkProxyTable() {
+	for _, e := range proxyEntries {
+		_, perr := netip.ParsePrefix(e.text)
+		a, aerr := netip.ParseAddr(e.text)
+		ref := perr == nil || (aerr == nil && a.Zone() == "")
+		if ref != e.ok {
+			fmt.Printf("HARNESS-ERROR: trusted-proxy table says ok=%v for %q, net/netip says %v\n", e.ok, e.text, ref)
+			os.Exit(2)
 		}
 	}
+}
+
+// malformedCase: a well-formed base configuration (two served tokens, clients by
+// fingerprint and by CA) with ONE entry replaced or added.
+type malformedCase struct {
+	name, class string
+	ok          bool // a control: the entry is well-formed and must be accepted
+	// orderDependent: the entry is a key naming a token that cannot be opened; it is
+	// found while the served tokens are being opened, in map order
+	orderDependent bool
+	proxies        []string
+	clients        [][2]string // (key of the client table, certificate PEM or "")
+	keys           [][3]string // (name, token, role)
+}
+
+func malformedCases() []malformedCase {
+	var out []malformedCase
+	good := "10.9.0.0/16"
+	for _, e := range proxyEntries {
+		if e.ok {
+			out = append(out, malformedCase{name: "trustedproxies:" + e.class, class: "trustedproxies:" + e.class, ok: true, proxies: []string{e.text}})
+			continue
+		}
+		// the list is read entry by entry: the malformed one alone, last, first
+		out = append(out,
+			malformedCase{name: "trustedproxies:" + e.class + ":alone", class: "trustedproxies:" + e.class, proxies: []string{e.text}},
+			malformedCase{name: "trustedproxies:" + e.class + ":last", class: "trustedproxies:" + e.class, proxies: []string{good, e.text}},
+			malformedCase{name: "trustedproxies:" + e.class + ":first", class: "trustedproxies:" + e.class, proxies: []string{e.text, good}})
+	}
+	garbage := "-----BEGIN CERTIFICATE-----\nZm9vYmFy\n-----END CERTIFICATE-----\n"
+	out = append(out,
+		malformedCase{name: "client:fingerprint-63-chars", class: "client:fingerprint-length", clients: [][2]string{{C.fpKeyFP[:63], ""}}},
+		malformedCase{name: "client:fingerprint-65-chars", class: "client:fingerprint-length", clients: [][2]string{{C.fpKeyFP + "0", ""}}},
+		malformedCase{name: "client:fingerprint-64-chars", class: "client:fingerprint", ok: true, clients: [][2]string{{strings.Repeat("ab", 32), ""}}},
+		malformedCase{name: "client:ca-pem-garbage", class: "client:ca-certificate", clients: [][2]string{{"caX", garbage}}},
+		malformedCase{name: "client:ca-pem-not-pem", class: "client:ca-certificate", clients: [][2]string{{"caX", "this is no certificate\n"}}},
+		malformedCase{name: "client:ca-pem-good-then-garbage", class: "client:ca-certificate", clients: [][2]string{{"caX", C.caBPEM + garbage}}},
+		malformedCase{name: "client:ca-pem-truncated", class: "client:ca-certificate", clients: [][2]string{{"caX", C.caBPEM[:len(C.caBPEM)/2] + "\n-----END CERTIFICATE-----\n"}}},
+		malformedCase{name: "client:ca-pem", class: "client:ca-certificate", ok: true, clients: [][2]string{{"caX", C.caBPEM}}},
+		malformedCase{name: "key:roles-without-token", class: "key:token-reference", orderDependent: true, keys: [][3]string{{"kz", "", "r1"}}},
+		malformedCase{name: "key:undefined-token", class: "key:token-reference", orderDependent: true, keys: [][3]string{{"kz", "nope", "r1"}}},
+	)
+	return out
+}
+
+func (mc malformedCase) config() *config.Config {
+	empty := ""
+	cfg := &config.Config{
+		Tokens:  map[string]*config.TokenConfig{"tok": {Type: faketoken.Type, Pin: &empty}, "tok2": {Type: faketoken.Type, Pin: &empty}},
+		Keys:    map[string]*config.KeyConfig{},
+		Clients: map[string]*config.ClientConfig{},
+		Server:  &config.ServerConfig{Listen: ":6363", TrustedProxies: mc.proxies},
+	}
+	cfg.Clients[strings.ToUpper(C.fpKeyFP)] = &config.ClientConfig{Nickname: "F", Roles: r1}
+	cfg.Clients["caA"] = &config.ClientConfig{Nickname: "A", Roles: r2, Certificate: C.caAPEM}
+	for _, c := range mc.clients {
+		cfg.Clients[c[0]] = &config.ClientConfig{Nickname: "X", Roles: r1, Certificate: c[1]}
+	}
+	key := func(name, tok, role string) {
+		cfg.Keys[name] = &config.KeyConfig{Token: tok, Roles: []string{role}, KeyFile: filepath.Join(relicx.KeyDir, "p256A.key"),
+			X509Certificate: filepath.Join(relicx.KeyDir, "p256A.chain.crt")}
+	}
+	key("ka", "tok", "r1")
+	key("kb", "tok2", "r2")
+	for _, k := range mc.keys {
+		key(k[0], k[1], k[2])
+	}
+	return cfg
+}
+
+// yaml: the same configuration as an installation's file (layout of doc/relic.yml).
+func (mc malformedCase) yaml() string {
+	var b strings.Builder
+	b.WriteString("tokens:\n  tok:\n    type: " + faketoken.Type + "\n    pin: ''\n  tok2:\n    type: " + faketoken.Type + "\n    pin: ''\n")
+	b.WriteString("keys:\n")
+	key := func(name, tok, role string) {
+		b.WriteString("  " + name + ":\n")
+		if tok != "" {
+			b.WriteString("    token: " + tok + "\n")
+		}
+		b.WriteString("    roles: ['" + role + "']\n")
+		b.WriteString("    keyfile: " + filepath.Join(relicx.KeyDir, "p256A.key") + "\n")
+		b.WriteString("    x509certificate: " + filepath.Join(relicx.KeyDir, "p256A.chain.crt") + "\n")
+	}
+	key("ka", "tok", "r1")
+	key("kb", "tok2", "r2")
+	for _, k := range mc.keys {
+		key(k[0], k[1], k[2])
+	}
+	b.WriteString("server:\n  listen: ':6363'\n")
+	if len(mc.proxies) > 0 {
+		b.WriteString("  trustedproxies:\n")
+		for _, p := range mc.proxies {
+			b.WriteString("    - '" + p + "'\n")
+		}
+	}
+	b.WriteString("clients:\n")
+	client := func(k, nick, role, pemText string) {
+		b.WriteString("  '" + k + "':\n    nickname: " + nick + "\n    roles: ['" + role + "']\n")
+		if pemText != "" {
+			b.WriteString("    certificate: |\n")
+			for _, line := range strings.Split(strings.TrimRight(pemText, "\n"), "\n") {
+				b.WriteString("      " + line + "\n")
+			}
+		}
+	}
+	client(strings.ToUpper(C.fpKeyFP), "F", "r1", "")
+	client("caA", "A", "r2", C.caAPEM)
+	for _, c := range mc.clients {
+		client(c[0], "X", "r1", c[1])
+	}
+	return b.String()
+}
+
+// malformed: every kind of entry of the configuration that can be malformed, in
+// every malformed form of the alphabet, must make start-up fail - through the
+// structs (Normalize, server.New) and through a configuration file
+// (config.ReadFile, server.New: the calls `relic serve` makes) - and at the moment
+// the error is returned NOTHING may have been asked of any token: the scripted
+// token type records every interaction, being opened (its entry in relic's
+// token.Openers registry invoked) and closed included. Well-formed entries of the
+// same alphabets are the controls: they must be accepted, and then every served
+// token has been opened.
+func malformed(dir string) {
+	checkProxyTable()
+	judgeOrder := os.Getenv("C04_TOKENREF_ORDER") != ""
+	yamlPath := filepath.Join(dir, "malformed.yml")
+	ncases := 0
+	for _, mc := range malformedCases() {
+		ncases++
+		for _, route := range []string{"structs", "file"} {
+			faketoken.Reset()
+			run.Eval(1)
+			run.Distinct("malformed:" + route + ":" + mc.name)
+			var err error
+			func() {
+				defer func() {
+					if p := recover(); p != nil {
+						run.Violation("malformed-config-panics:"+mc.class, fmt.Sprintf("%s (%s): %v", mc.name, route, p), mc.yaml())
+						err = fmt.Errorf("panic: %v", p)
+					}
+				}()
+				var cfg *config.Config
+				if route == "structs" {
+					cfg = mc.config()
+					err = cfg.Normalize("")
+				} else {
+					if werr := os.WriteFile(yamlPath, []byte(mc.yaml()), 0o600); werr != nil {
+						panic(werr)
+					}
+					cfg, err = config.ReadFile(yamlPath)
+				}
+				if err == nil {
+					relicx.Use(cfg)
+					var srv *server.Server
+					srv, err = server.New(cfg)
+					if err == nil {
+						if mc.ok && (faketoken.S.Count("open") != 2) {
+							run.Violation("wellformed-config:served-tokens-not-opened", fmt.Sprintf("%s (%s): %d tokens opened, 2 are served", mc.name, route, faketoken.S.Count("open")), mc.yaml())
+						}
+						srv.Close()
+					}
+				}
+			}()
+			touched := faketoken.S.Count("")
+			var ops []string
+			faketoken.S.Mu.Lock()
+			for _, c := range faketoken.S.Calls {
+				ops = append(ops, c.Op+" "+c.Token)
+			}
+			faketoken.S.Mu.Unlock()
+			replay := map[string]any{"case": mc.name, "route": route, "yaml": mc.yaml(), "error": fmt.Sprint(err), "token_interactions": ops}
+			switch {
+			case mc.ok && err != nil:
+				run.Violation("wellformed-config-rejected:"+mc.class, fmt.Sprintf("%s (%s): %v", mc.name, route, err), replay)
+			case mc.ok:
+				run.Outcome("malformed:control-accepted")
+			case err == nil:
+				run.Violation("malformed-config-accepted:"+mc.class, fmt.Sprintf("%s (%s): configuration accepted without error", mc.name, route), replay)
+			case touched != 0 && mc.orderDependent && !judgeOrder:
+				run.Outcome("malformed:rejected-while-opening-tokens(not judged)")
+			case touched != 0:
+				run.Violation("malformed-config:token-touched-before-error:"+mc.class,
+					fmt.Sprintf("%s (%s): start-up failed with %q, but only after %d interactions with tokens: %v", mc.name, route, err, touched, ops), replay)
+			default:
+				run.Outcome("malformed:rejected-before-any-token")
+			}
+		}
+	}
+	run.Set("malformed", map[string]any{"cases": ncases, "routes": 2, "trusted_proxy_entry_forms": len(proxyEntries)})
 }
 
 // ---------- policy (bearer / OPA) authenticator ----------
